@@ -91,6 +91,8 @@ def make_gen(tag, widths_hi=70):
                     vec[j] = 0
             prev = vec
             step = {'vec': vec, 'faults': [f for f in ('resort', 'sim_restart', 'extra_settle') if fr.random() < 0.06]}
+            if fr.random() < 0.1:
+                step['clk0'] = True
             if k.name in ('ShiftLeftConstant', 'ShiftRightConstant') and fr.random() < 0.08:
                 step['param_n'] = fr.randint(0, ows[0] + 2)      # the shift amount is a block parameter: it is re-assigned between cycles
             steps.append(step)
@@ -137,6 +139,12 @@ def run(scn, log, st):
         b.set_inputs(step['vec'])
         ref.set_inputs(step['vec'])
         ref.settle()
+        if step.get('clk0'):
+            # clk(0): settle only, no edge
+            with quiet():
+                sim.clk(0)
+            netlist.compare(b, ref.vals, si, 'after clk(0) in cycle %d' % si, sigprefix='fn', use_poison=False)
+            st.probe('settled_by_clk0')
         with quiet():
             sim.clk(1)
         ref.edge()
